@@ -89,7 +89,7 @@ Section WithRle.
   Variable rle_decode : N -> list N -> N -> res (list N).
 
   (** assumed behaviour of the index-stream codec *)
-  Hypothesis rle_roundtrip : forall w ix, w <= 32 -> Forall (fun i => i < 2 ^ w) ix ->
+  Hypothesis rle_roundtrip : forall w ix, w <= 32 -> Forall (fun i => i < 2 ^ w) ix -> len ix < 2 ^ 31 ->
     rle_decode w (rle_encode w ix) (len ix) = Ok ix.
 
   Lemma lookup_entries k (d : list (list N)) (vs ix : list N) dc :
@@ -158,7 +158,7 @@ Section WithRle.
       apply N.le_succ_l. apply N.log2_lt_pow2; [|lia].
       destruct (N.eq_dec (len d - 1) 0) as [Q|Q]; [rewrite Q in Es; contradiction Es; reflexivity|lia]. }
     assert (E62 : (2 ^ 62 <=? len vs) = false) by (apply N.leb_gt; eapply N.lt_trans; [exact Hl|reflexivity]).
-    rewrite E62. rewrite <- Lx, rle_roundtrip by assumption. rewrite N.ltb_irrefl.
+    rewrite E62. rewrite <- Lx, rle_roundtrip by (try assumption; rewrite Lx; exact Hl). rewrite N.ltb_irrefl.
     apply lookup_entries; try assumption; [reflexivity|].
     clear - F. revert ix F. induction vs as [|v t IH]; intros ix F; inversion F; subst; constructor; auto.
   Qed.
